@@ -129,6 +129,11 @@ def splitCRLF : Bytes → List Bytes
       | [] => [[c]]
       | l :: ls => (c :: l) :: ls
 
+/-- last non-empty OWS-trimmed element of a comma list (the final coding of a Transfer-Encoding value) -/
+def lastToken : List Bytes → Bytes → Bytes
+  | [], last => last
+  | e :: es, last => lastToken es (if (trim e).isEmpty then last else trim e)
+
 /-- position of the first byte satisfying `p` -/
 def indexOf? (p : UInt8 → Bool) : Bytes → Option Nat
   | [] => none
@@ -148,5 +153,14 @@ def hdrSet : Headers → Bytes → Bytes → Headers
 def hdrFind : Headers → Bytes → Option Bytes
   | [], _ => none
   | (k', v') :: t, k => if ciEq k' k then some v' else hdrFind t k
+
+/-- mirrors the store at the end of `parseHeaderBlock`'s field loop: a repeated `Connection` field line is combined with the
+earlier value (`old ", " new`, RFC 9110 §5.3), every other field is `headers[name] = value` (last value wins) -/
+def hdrAdd (h : Headers) (name value : Bytes) : Headers :=
+  if ciEq name (ascii "Connection") then
+    match hdrFind h name with
+    | some old => hdrSet h name (old ++ ascii ", " ++ value)
+    | none => hdrSet h name value
+  else hdrSet h name value
 
 end Iora.Http
